@@ -66,6 +66,10 @@ pub enum HardKind {
     WriteZero,
     /// the medium accepts bytes until it holds `capacity` bytes in total, then StorageFull
     DiskFull,
+    /// transient: the read/write at index `at` transfers only half of what was asked (at least 1)
+    ShortOnce,
+    /// transient: the read/write at index `at` answers ErrorKind::Interrupted once
+    EintrOnce,
 }
 
 #[derive(Clone, Copy, Debug)]
@@ -227,6 +231,8 @@ impl DiskState {
         self.hard_seq += 1;
         match h.kind {
             HardKind::ErrorOnce if idx == h.at => Some(HardHit::Err),
+            HardKind::ShortOnce if idx == h.at && (opbit == OpMask::WRITE || opbit == OpMask::READ) && len >= 2 => Some(HardHit::Room(len / 2)),
+            HardKind::EintrOnce if idx == h.at && (opbit == OpMask::WRITE || opbit == OpMask::READ) && len >= 1 => Some(HardHit::Eintr),
             HardKind::ErrorFrom if idx >= h.at => Some(HardHit::Err),
             HardKind::WriteZero if idx >= h.at && opbit == OpMask::WRITE && len > 0 => Some(HardHit::Zero),
             HardKind::DiskFull if opbit == OpMask::WRITE && len > 0 => {
@@ -243,6 +249,7 @@ impl DiskState {
 }
 
 enum HardHit {
+    Eintr,
     Err,
     Zero,
     Full,
@@ -316,7 +323,22 @@ impl Write for SimFile {
                 d.tr(|| format!("write({}) -> Err(StorageFull) [INJECTED disk_full]", buf.len()));
                 return Err(io::Error::new(io::ErrorKind::StorageFull, "injected disk full"));
             }
-            Some(HardHit::Room(r)) => room = r,
+            Some(HardHit::Room(r)) => {
+                room = r;
+                if matches!(d.hard.map(|h| h.kind), Some(HardKind::ShortOnce)) {
+                    d.hard_fired += 1;
+                    d.faults_in_run += 1;
+                    fault_fired("short_write_placed");
+                }
+            }
+            Some(HardHit::Eintr) => {
+                d.hard_fired += 1;
+                d.faults_in_run += 1;
+                fault_fired("eintr_write_placed");
+                d.ev(OP_WRITE, 1, 1);
+                d.tr(|| format!("write({}) -> Err(Interrupted) [INJECTED]", buf.len()));
+                return Err(io::Error::from(io::ErrorKind::Interrupted));
+            }
             None => {}
         }
         let mut n = buf.len().min(room);
@@ -433,18 +455,36 @@ impl Read for SimFile {
     fn read(&mut self, buf: &mut [u8]) -> io::Result<usize> {
         let mut guard = self.disk.0.borrow_mut();
         let d = &mut *guard;
-        if let Some(HardHit::Err) = d.hard_check(OpMask::READ, buf.len(), self.file) {
-            d.hard_fired += 1;
-            d.faults_in_run += 1;
-            fault_fired("io_error_read");
-            d.ev(OP_READ, 10, 1);
-            d.tr(|| format!("read({}) -> Err(Other) [INJECTED]", buf.len()));
-            return Err(io::Error::other("injected read error"));
+        let mut placed_room = usize::MAX;
+        match d.hard_check(OpMask::READ, buf.len(), self.file) {
+            Some(HardHit::Err) => {
+                d.hard_fired += 1;
+                d.faults_in_run += 1;
+                fault_fired("io_error_read");
+                d.ev(OP_READ, 10, 1);
+                d.tr(|| format!("read({}) -> Err(Other) [INJECTED]", buf.len()));
+                return Err(io::Error::other("injected read error"));
+            }
+            Some(HardHit::Eintr) => {
+                d.hard_fired += 1;
+                d.faults_in_run += 1;
+                fault_fired("eintr_read_placed");
+                d.ev(OP_READ, 1, 1);
+                d.tr(|| format!("read({}) -> Err(Interrupted) [INJECTED]", buf.len()));
+                return Err(io::Error::from(io::ErrorKind::Interrupted));
+            }
+            Some(HardHit::Room(r)) => {
+                placed_room = r;
+                d.hard_fired += 1;
+                d.faults_in_run += 1;
+                fault_fired("short_read_placed");
+            }
+            _ => {}
         }
         let flen = d.files[self.file].len();
         let pos = (self.pos as usize).min(flen);
         let avail = flen - pos;
-        let mut n = buf.len().min(avail);
+        let mut n = buf.len().min(avail).min(placed_room.max(1));
         let mut fault = 0u8;
         if let Some(c) = self.cut {
             let c = c as usize;
